@@ -20,6 +20,9 @@ func init() {
 			"NOT decided: ordering / exactly-once delivery through the pty, TCP and crypto/ssh, that a blocked read returns when the descriptor is closed, end-to-end equivalence with an ideal pipe — operating-system and library behaviour that no static argument here bounds.",
 		Assumptions: []string{"os.File, net.Conn, crypto/ssh session pipes deliver bytes in order", "io.Reader contract: Read reports the number of bytes placed at the start of the buffer"},
 		Mutants: []Mutant{
+			{ID: "C16-stderr-pipe-undrained", Desc: "standard transport takes the session's stderr pipe and never reads it", Rule: "C16/pipes-drained",
+				Edits: []Edit{{File: "transport/standard.go", Old: "\treader       io.Reader\n\tExtraCiphers []string", New: "\treader       io.Reader\n\terrReader    io.Reader\n\tExtraCiphers []string"},
+					{File: "transport/standard.go", Old: "\tt.reader, err = t.session.StdoutPipe()", New: "\tt.errReader, err = t.session.StderrPipe()\n\tif err != nil {\n\t\treturn err\n\t}\n\n\tt.reader, err = t.session.StdoutPipe()"}}},
 			{ID: "C16-system-whole-buffer", Desc: "System.Read returns the whole buffer", Rule: "C16/read-prefix",
 				Edits: []Edit{{File: "transport/system.go", Old: "\tn, err := t.fd.Read(b)\n\tif err != nil {\n\t\treturn nil, err\n\t}\n\n\treturn b[0:n], nil", New: "\t_, err := t.fd.Read(b)\n\tif err != nil {\n\t\treturn nil, err\n\t}\n\n\treturn b, nil"}}},
 			{ID: "C16-standard-off-by-one", Desc: "Standard.Read drops the last byte of full reads", Rule: "C16/read-prefix",
@@ -49,6 +52,8 @@ func init() {
 }
 
 func runC16(c *Ctx, r *Report) {
+	r.Rule("C16/pipes-drained", "every crypto/ssh session pipe the standard transport takes is read / written by it", 2)
+	checkSessionPipesDrained(c, r, "C16/pipes-drained")
 	r.Rule("C16/read-prefix", "Read allocates the requested size, performs one underlying read into it and returns exactly buffer[0:n]", 3)
 	r.Rule("C16/write-forward", "Write hands the caller's slice unchanged to the underlying writer and returns its error", 3)
 	r.Rule("C16/wrapper", "the Transport wrapper forwards the configured read size, the same slice and the implementation's results", 4)
